@@ -61,6 +61,37 @@ def showRes (r : Res (List Nat)) : String :=
   | .error .invalid => "err"
   | .error .panic => "panic"
 
+/-- items `len:seed` or `len:seed*n`; byte j of a value is (seed + 7 j) mod 256 -/
+def parseVarItem (s : String) : Option (List (List Nat)) :=
+  let mk (body : String) (n : Nat) : Option (List (List Nat)) :=
+    match body.splitOn ":" with
+    | [len, seed] => match len.toNat?, seed.toNat? with
+      | some len, some seed =>
+        if len > 100000 || n > 100000 then none
+        else some (List.replicate n ((List.range len).map (fun j => (seed + 7 * j) % 256)))
+      | _, _ => none
+    | _ => none
+  match s.splitOn "*" with
+  | [body] => mk body 1
+  | [body, n] => match n.toNat? with
+    | some n => mk body n
+    | none => none
+  | _ => none
+
+def parseItems (s : String) : Option (List (List Nat)) :=
+  if s = "-" then some []
+  else ((s.splitOn ",").mapM parseVarItem).map List.flatten
+
+/-- canonical bytes of a list of values: 4-byte length then the bytes -/
+def canonVals (vals : List (List Nat)) : List Nat := vals.flatMap (fun v => toLE 4 v.length ++ v)
+
+def childBytes (seed j w nv : Nat) : List Nat :=
+  (List.range (w * nv)).map (fun k => (seed + 17 * j + 3 * k + k / 7) % 256)
+
+/-- a stand-in kernel that only gets the lengths right (the packed words themselves are C28's business) -/
+def lenKernel (bits : Nat) : Kernel :=
+  ⟨bits, fun w _ => List.replicate (1024 * w / bits) 0, fun _ _ => List.replicate 1024 0⟩
+
 def bad : String := "bad-op"
 
 def validMeta (m : String) : Bool :=
@@ -100,6 +131,71 @@ def step (s : Unit) (line : String) : Unit × String :=
     match bpv.toNat?, nv.toNat? with
     | some bpv, some nv =>
       if 0 < bpv && bpv ≤ 4092 then (s, "chunks=" ++ showChunks (flatEncode bpv nv []).2) else (s, bad)
+    | _, _ => (s, bad)
+  | ["bin", bw, items] =>
+    match bw.toNat?, parseItems items with
+    | some bw, some vals =>
+      if bw = 4 || bw = 8 then (s, showMini (binEncode bw vals)) else (s, bad)
+    | _, _ => (s, bad)
+  | ["var", bw, items] =>
+    match bw.toNat?, parseItems items with
+    | some bw, some vals =>
+      if bw = 4 || bw = 8 then (s, showBuf (varBlockEncode bw (offsetsFrom 0 vals) vals.flatten)) else (s, bad)
+    | _, _ => (s, bad)
+  | ["pk", widths, nv, seed] =>
+    match (widths.splitOn "/").mapM (·.toNat?), nv.toNat?, seed.toNat? with
+    | some ws, some nv, some seed =>
+      if !ws.isEmpty && ws.all (fun w => 0 < w && w ≤ 64) && ws.sum ≤ 4092 && nv ≤ 20000 then
+        (s, showMini (packedEncode (ws.zipIdx.map (fun (w, j) => (w, childBytes seed j w nv))) nv))
+      else (s, bad)
+    | _, _, _ => (s, bad)
+  | ["dict", items] =>
+    match parseItems items with
+    | some vals =>
+      if vals.isEmpty then (s, bad) else
+      (s, "idx=" ++ showNatList (dictEncode vals).1 ++ " dict=" ++ showBuf (canonVals (dictEncode vals).2))
+    | none => (s, bad)
+  | ["ibp", ts, vs] =>
+    match ts.toNat?, parseVals vs with
+    | some ts, some vs =>
+      if validTs ts && vs.all (· < 256 ^ ts) && !vs.isEmpty then
+        (s, "chunks=" ++ showChunks ((ibpEncode (lenKernel (ts * 8)) vs).map (ibpChunkOf (lenKernel (ts * 8))))
+          ++ " hdr=" ++ showNatList ((ibpEncode (lenKernel (ts * 8)) vs).map (·.1.headD 0)))
+      else (s, bad)
+    | _, _ => (s, bad)
+  | ["obp", ts, cw, vs] =>
+    match ts.toNat?, cw.toNat?, parseVals vs with
+    | some ts, some cw, some vs =>
+      if validTs ts && vs.all (· < 256 ^ ts) && !vs.isEmpty && 0 < cw && cw < ts * 8 && vs.all (· < 2 ^ cw) then
+        let words := (oolEncode (lenKernel (ts * 8)) cw vs.length vs).length
+        let wpc := 1024 * cw / (ts * 8)
+        let kind := if vs.length % 1024 = 0 then "none"
+          else if words = vs.length / 1024 * wpc + vs.length % 1024 then "raw" else "packed"
+        (s, "words=" ++ toString words ++ " tail=" ++ kind)
+      else (s, bad)
+    | _, _, _ => (s, bad)
+  | ["gen", inner, ts, vs] =>
+    match ts.toNat?, parseVals vs with
+    | some ts, some vs =>
+      if validTs ts && vs.all (· < 256 ^ ts) && !vs.isEmpty &&
+        (inner = "rle" || inner = "flat" || (inner = "bss" && (ts = 4 || ts = 8))) then (s, "rt") else (s, bad)
+    | _, _ => (s, bad)
+  | ["fsst", bw, items] =>
+    match bw.toNat?, parseItems items with
+    | some bw, some vals => if (bw = 4 || bw = 8) && !vals.isEmpty then (s, "rt") else (s, bad)
+    | _, _ => (s, bad)
+  | ["vstrat", bw, md, items] =>
+    match bw.toNat?, parseItems items with
+    | some bw, some vals =>
+      if (bw = 4 || bw = 8) && !vals.isEmpty && (md.splitOn ";").all (fun m => ["-", "none", "lz4", "zstd", "fsst"].contains m)
+      then (s, "rt") else (s, bad)
+    | _, _ => (s, bad)
+  | ["const", n, bs] =>
+    match n.toNat?, parseVals bs with
+    | some n, some bs =>
+      if bs.all (· < 256) then
+        (s, if bs.isEmpty then "allnull x" ++ toString n else "const " ++ showBuf bs ++ " x" ++ toString n)
+      else (s, bad)
     | _, _ => (s, bad)
   | ["strat", ts, md, vs] =>
     -- oracle-only line: the default strategy picks the codec; the harness checks the round trip
